@@ -32,7 +32,22 @@ const (
 	optCbDesignated                 // handlers designated to two parallel nodes
 	optMaxSteps                     // WithRuntimeMaxSteps(small): the run fails with ErrExceedMaxSteps
 	optCtxHandlers                  // the context already carries handlers (callbacks.InitCallbacks), the SAME parent context for every call
+	optShared                       // option VALUES built once per object and handed to every call with this bit: the same Option structs, NodePaths, handler and option slices
 )
+
+// withShared puts the object's shared option values in front of the call's own options.
+// With no own options the shared slice itself is passed (same backing array for every call).
+func withShared[T any](bits int, shared []T, own []T) []T {
+	if bits&optShared == 0 {
+		return own
+	}
+	if len(own) == 0 {
+		return shared
+	}
+	out := make([]T, 0, len(shared)+len(own))
+	out = append(out, shared...)
+	return append(out, own...)
+}
 
 // object is a compiled runnable of the zoo plus everything needed to call it.
 type object struct {
@@ -122,7 +137,7 @@ func applyOpts(ctx context.Context, key string, opts []lopt) string {
 	rc := recOf(ctx)
 	s := ""
 	for _, o := range opts {
-		if rc != nil && o.Tag != rc.tag {
+		if rc != nil && o.Tag != "" && o.Tag != rc.tag { // Tag "" = a shared option value
 			rc.violate(fmt.Sprintf("node %s of call %s received an option of call %s", key, rc.tag, o.Tag))
 		}
 		s += "[o=" + o.Val + "]"
